@@ -388,9 +388,9 @@ def analyse_flush_hash(ctx, F, fn):
     weights = {}
     # find the local that receives the weights: the addend must be a local with one def per arm
     w_local = None
-    for l, ds in pr.defs.items():
+    for l, ds in sorted(pr.defs.items(), key=lambda kv: len(kv[1])):
         if pr.local(l) == W and l != H:
-            w_local = l
+            w_local = l          # the one with a definition per arm (others are copies of it)
     if w_local is None:
         raise U(rule, "weight local not found", fn)
     for v, tgt in sw["arms"]:
